@@ -200,3 +200,30 @@ Theorem mode_fixed_interp_cached (fx k cached : val) rg cu : fx = VObj "UserCosm
   yields Gm 60 (CFun src_CosmoLikelihood_cosmo_instance) (Some (clike true fx [("_cosmo_fixed_interp", cached)])) [k] [] rg cu cached cu [].
 Proof. intros -> -> ->. yields_auto. Qed.
 End Modes.
+
+(* ------------------------------------------------------------------------------------------- *)
+(* 6. the interpolation range z_max set by CosmoLikelihood.__init__ covers EVERY redshift a distance is asked at: each lens' source and
+      second-source redshift (whichever is larger - a second source may lie in front of the first) and the anchor redshift *)
+Section ZMax.
+Definition capz (cls : string) (extra : list (string * val)) : callee := COracle (fun args kws w => Ok (VObj cls (extra ++ kws), w)).
+Definition Gz : fenv := FEnv (fun _ _ => None)
+  (fun n => if String.eqb n "LensSampleLikelihood" then Some (capz n [("gamma_pl_num", VInt 0)])
+            else if String.eqb n "ParamManager" then Some (capz n [("param_bounds", VTuple [VList []; VList []])]) else None).
+Definition fieldz (o : val) (k : string) : option val := match o with VObj _ fs => field_get k fs | _ => None end.
+Variables (zs1 zs2a zs2b za : R).
+Definition two_lenses := VList [dict [("z_lens", num (1/2)); ("z_source", num zs1)];
+                                dict [("z_lens", num (1/2)); ("z_source", num zs2a); ("z_source2", num zs2b)]].
+Definition init_args := [two_lenses; VStr "FLCDM"; dict [("z_apparent_m_anchor", num za)]; dict []].
+(* second source BEHIND the first: the range follows it *)
+Theorem z_max_second_behind rg cu : 0 < zs1 -> zs1 < zs2a -> zs2a < zs2b ->
+  exists o, yields Gz 120 (CClass "CosmoLikelihood" src_CosmoLikelihood_init) None init_args [] rg cu o cu [] /\ fieldz o "_z_max" = Some (num (Rmax zs2b za)).
+Proof. intros H0 H1 H2. eexists. split; [unfold init_args, two_lenses; yields_with real_fact ltac:(reflexivity) | reflexivity]. Qed.
+(* second source IN FRONT of the first: the range still reaches the first source *)
+Theorem z_max_second_in_front rg cu : 0 < zs1 -> zs1 < zs2a -> zs2b < zs2a ->
+  exists o, yields Gz 120 (CClass "CosmoLikelihood" src_CosmoLikelihood_init) None init_args [] rg cu o cu [] /\ fieldz o "_z_max" = Some (num (Rmax zs2a za)).
+Proof. intros H0 H1 H2. eexists. split; [unfold init_args, two_lenses; yields_with real_fact ltac:(reflexivity) | reflexivity]. Qed.
+(* an earlier lens with the highest source: kept *)
+Theorem z_max_first_lens_highest rg cu : 0 < zs2a -> zs2a < zs1 -> zs2b < zs1 ->
+  exists o, yields Gz 120 (CClass "CosmoLikelihood" src_CosmoLikelihood_init) None init_args [] rg cu o cu [] /\ fieldz o "_z_max" = Some (num (Rmax zs1 za)).
+Proof. intros H0 H1 H2. eexists. split; [unfold init_args, two_lenses; yields_with real_fact ltac:(reflexivity) | reflexivity]. Qed.
+End ZMax.
